@@ -76,6 +76,33 @@ func checkSer(R *vlib.Out, prop string, t *tmpl, hp, bp, tp []*pop) {
 	if !checkBytes(R, prop, t, hp, bp, tp, m, rp, "") {
 		return
 	}
+	if prop == "C17" {
+		// another message of the same type arrives with another BeginString and is parsed into an object of its
+		// own: this message is what it was (objects of one type share nothing but their definition)
+		if out1, err1, pan1 := safeToBytes(m); pan1 == "" && err1 == nil {
+			snap := append([]byte{}, out1...)
+			pre := t.BS + "=" + t.Begin + "\x01"
+			if bytes.HasPrefix(snap, []byte(pre)) {
+				alt := append([]byte(t.BS+"=FIX.4.2\x01"), snap[len(pre):]...)
+				if i := bytes.LastIndex(alt, []byte("\x01"+t.CS+"=")); i > 0 {
+					sum := 0
+					for _, c := range alt[:i+1] {
+						sum += int(c)
+					}
+					alt = append(alt[:i+1], []byte(fmt.Sprintf("%s=%03d\x01", t.CS, sum%256))...)
+					other := t.message(emptyPops(t.Hdr), emptyPops(t.Body), emptyPops(t.Trl))
+					if t.Gen != "" {
+						other = genCtors[t.Gen]()
+					}
+					_ = safeUnmarshal(other, alt, false)
+					if out2, _, _ := safeToBytes(m); !bytes.Equal(snap, out2) {
+						R.Violate("unrelated-parse-changes-message", fmt.Sprintf("serialised %s, then - after a message with BeginString FIX.4.2 was parsed into another object of the type - %s  %s", vlib.Show(snap), vlib.Show(out2), describe(t)), rp)
+						return
+					}
+				}
+			}
+		}
+	}
 	if prop == "C02" || t.Gen != "" {
 		return
 	}
